@@ -1,6 +1,10 @@
 package c03
 
 import (
+	"math/rand"
+
+	"go.starlark.net/starlark"
+
 	"testing"
 	"time"
 )
@@ -15,5 +19,25 @@ func TestScreening(t *testing.T) {
 		t0 := time.Now()
 		rec, alloc, heavy := executeScreened(&Case{Bits: 63, Src: src})
 		t.Logf("heavy=%v allocated=%d MB in %v steps=%d err=%s", heavy, alloc>>20, time.Since(t0), rec.Steps, firstLine(rec.Err))
+	}
+}
+
+func TestSharedPrograms(t *testing.T) {
+	for i := 0; i < 40; i++ {
+		c, _ := sharedProgram(rand.New(rand.NewSource(int64(i))))
+		prog, err := compileShared(&c)
+		if err != nil {
+			t.Fatalf("seed %d: %v\n%s", i, err, c.Src[:300])
+		}
+		rec := executeWith(nil, func(th *starlark.Thread, env starlark.StringDict) (starlark.StringDict, error) {
+			return prog.Init(th, env)
+		})
+		rec2 := execute(nil, &c)
+		if rec.Text() != rec2.Text() {
+			t.Errorf("seed %d: Init and ExecFile records differ", i)
+		}
+		if i < 6 {
+			t.Logf("seed %d bits %d: steps %d\n%s\n%s", i, c.Bits, rec.Steps, rec.Events, rec.Err)
+		}
 	}
 }
